@@ -718,6 +718,14 @@ func (c *Ctx) assume(cond ssa.Value, truth bool) {
 				c.add(lin.GE(a, b))
 			case token.EQL:
 				c.add(lin.EQ(a, b)...)
+				// verdict helpers: `helper(args) == K` brings the helper's conditional postconditions
+				for _, pr := range [][2]ssa.Value{{x.X, x.Y}, {x.Y, x.X}} {
+					if call, isCall := pr[0].(*ssa.Call); isCall {
+						if k, isK := constInt(pr[1]); isK && k.IsInt64() {
+							c.condCallFacts(call, k.Int64())
+						}
+					}
+				}
 			case token.NEQ:
 				c.neq = append(c.neq, [2]lin.Form{a, b})
 				// a != b: usable when one side is already bounded by the other
@@ -776,6 +784,13 @@ func isNil(v ssa.Value) bool {
 // nilKnown: value v (an error) is known nil (isNil=true) or non-nil here.
 func (c *Ctx) nilKnown(v ssa.Value, isNilV bool) {
 	if !isNilV {
+		// a non-nil result of (*regexp.Regexp).Find*Submatch has one element per
+		// capture group of the (constant) pattern, plus the whole match
+		if call, ok := v.(*ssa.Call); ok {
+			if n, ok := c.FI.W.submatchGroups(call); ok {
+				c.add(lin.EQ(c.LenOf(v), lin.K(int64(n)))...)
+			}
+		}
 		return
 	}
 	if ex, ok := v.(*ssa.Extract); ok {
